@@ -55,8 +55,8 @@ func NewSigner(alg Algorithm, key crypto.Signer) (Signer, error) {
 	var errReason string
 	switch alg {
 	case AlgorithmPS256, AlgorithmPS384, AlgorithmPS512:
-		vk, ok := key.Public().(*rsa.PublicKey)
-		if !ok {
+		vk, ok := signerPublicKey(key).(*rsa.PublicKey)
+		if !ok || vk == nil || vk.N == nil {
 			return nil, fmt.Errorf("%v: %w", alg, ErrInvalidPubKey)
 		}
 		// RFC 8230 section 6.1 requires RSA keys having a minimum size of 2048
@@ -70,8 +70,8 @@ func NewSigner(alg Algorithm, key crypto.Signer) (Signer, error) {
 			key: key,
 		}, nil
 	case AlgorithmES256, AlgorithmES384, AlgorithmES512:
-		vk, ok := key.Public().(*ecdsa.PublicKey)
-		if !ok {
+		vk, ok := signerPublicKey(key).(*ecdsa.PublicKey)
+		if !ok || vk == nil || vk.Curve == nil {
 			return nil, fmt.Errorf("%v: %w", alg, ErrInvalidPubKey)
 		}
 		if sk, ok := key.(*ecdsa.PrivateKey); ok {
@@ -86,7 +86,7 @@ func NewSigner(alg Algorithm, key crypto.Signer) (Signer, error) {
 			signer: key,
 		}, nil
 	case AlgorithmEdDSA:
-		if _, ok := key.Public().(ed25519.PublicKey); !ok {
+		if vk, ok := signerPublicKey(key).(ed25519.PublicKey); !ok || len(vk) != ed25519.PublicKeySize {
 			return nil, fmt.Errorf("%v: %w", alg, ErrInvalidPubKey)
 		}
 		return &ed25519Signer{
@@ -100,4 +100,13 @@ func NewSigner(alg Algorithm, key crypto.Signer) (Signer, error) {
 		errReason = "unknown algorithm"
 	}
 	return nil, fmt.Errorf("can't create new Signer for %s: %s: %w", alg, errReason, ErrAlgorithmNotSupported)
+}
+
+// signerPublicKey returns the public key of key, or nil for an
+// ed25519.PrivateKey of the wrong length (whose Public method panics).
+func signerPublicKey(key crypto.Signer) crypto.PublicKey {
+	if sk, ok := key.(ed25519.PrivateKey); ok && len(sk) != ed25519.PrivateKeySize {
+		return nil
+	}
+	return key.Public()
 }
